@@ -35,6 +35,74 @@ ODD_LINES = ['IGNORE dup', 'IGNORE dup', 'DATA weird 3 FOO 00', 'DATA whirl 3 WH
              'IGNORE .', 'IGNORE a/', 'DATA trailing/ 1', 'EBUILD e-1.ebuild 0', 'DATA dir-entry 0 SHA1 da39a3ee5e6b4b0d3255bfef95601890afd80709']
 
 
+def _sha1(b):
+    import hashlib
+    return hashlib.sha1(b).hexdigest()
+
+
+def odd_structure(rng, root, L, mp):
+    """Legal-but-unusual arrangements that need files next to the lines: returns the lines to append
+    to the Manifest `mp` (paths relative to its directory) after creating what they name."""
+    import bz2
+    import gzip
+    import lzma
+    d = os.path.join(root, os.path.dirname(mp))
+    kind = rng.choice(['hidden_dir_entry', 'ignored_manifest', 'hidden_manifest', 'data_and_manifest',
+                       'corrupt_compressed', 'corrupt_compressed', 'now_ignored'])
+    subm = b'DATA f 1 SHA1 ' + _sha1(b'x').encode() + b'\n'
+
+    def put(rel, data):
+        fp = os.path.join(d, rel)
+        os.makedirs(os.path.dirname(fp), exist_ok=True)
+        if not os.path.lexists(fp):
+            with open(fp, 'wb') as f:
+                f.write(data)
+            return True
+        return False
+    try:
+        if kind == 'hidden_dir_entry':
+            # a hidden directory that a Manifest entry names (IGNORE, or a file entry)
+            put('.hid/f', b'x')
+            return [rng.choice(['IGNORE .hid', 'DATA .hid 0', 'DATA .hid/f 1 SHA1 ' + _sha1(b'x'), 'MISC .hid 1'])]
+        if kind in ('ignored_manifest', 'hidden_manifest', 'data_and_manifest'):
+            dn = {'ignored_manifest': 'ign', 'hidden_manifest': '.hm', 'data_and_manifest': 'dm'}[kind]
+            if not put(dn + '/Manifest', subm):
+                return []
+            put(dn + '/f', b'x')
+            ml = 'MANIFEST %s/Manifest %d SHA1 %s' % (dn, len(subm), _sha1(subm))
+            if kind == 'ignored_manifest':
+                ls = ['IGNORE ' + dn, ml]
+                rng.shuffle(ls)
+                return ls
+            if kind == 'data_and_manifest':
+                ls = ['DATA %s/Manifest %d SHA1 %s' % (dn, len(subm), _sha1(subm)), ml]
+                rng.shuffle(ls)
+                return ls
+            return [ml]
+        if kind == 'corrupt_compressed':
+            ext = rng.choice(['gz', 'bz2', 'xz', 'lzma'])
+            good = {'gz': gzip.compress(subm), 'bz2': bz2.compress(subm), 'xz': lzma.compress(subm),
+                    'lzma': lzma.compress(subm, format=lzma.FORMAT_ALONE)}[ext]
+            data = {'trunc': good[:-6], 'garbage': b'not compressed at all\n', 'empty': b'', 'tail': good + b'junk',
+                    'half': good[:len(good) // 2]}[rng.choice(['trunc', 'garbage', 'empty', 'tail', 'half'])]
+            if not put('cc/Manifest.' + ext, data):
+                return []
+            put('cc/f', b'x')
+            if rng.random() < 0.4:
+                return []                   # left unregistered: update and create meet it
+            return ['MANIFEST cc/Manifest.%s %d SHA1 %s' % (ext, len(data), _sha1(data))]
+        if kind == 'now_ignored' and os.path.dirname(mp) == '':
+            # paths the ebuild profiles put under IGNORE in a Manifest they newly create
+            rel = rng.choice(['metadata/timestamp', 'metadata/timestamp.chk', 'metadata/dtd/timestamp.chk',
+                              'metadata/glsa/timestamp.commit'])
+            put(rel, b'x')
+            put(os.path.dirname(rel) + '/other', b'x')
+            return ['DATA %s 1 SHA1 %s' % (rel, _sha1(b'x'))] if rng.random() < 0.8 else []
+    except OSError:
+        pass
+    return []
+
+
 def odd_tree(rng, root):
     L = gen.random_layout(rng)
     L.write(root)
@@ -50,6 +118,10 @@ def odd_tree(rng, root):
         if mfs:
             mp = rng.choice(mfs)
             lines = rng.sample(ODD_LINES, rng.randrange(1, 4))
+            if rng.random() < 0.5:
+                lines += odd_structure(rng, root, L, mp)
+            if rng.random() < 0.01:
+                lines.append('MANIFEST ./Manifest 0')      # self-reference (slow: known finding F22)
             with open(os.path.join(root, mp), 'ab') as f:
                 f.write(('\n'.join(lines) + '\n').encode('utf8'))
             if 'DATA dir-entry 0' in ' '.join(lines):
